@@ -79,16 +79,27 @@ def harness_dir():
     if "hdir" in _done:
         return _done["hdir"]
     hdir = os.path.join(VERIF, "harness")
-    if REPO != "/repo":
-        alt = os.path.join(BUILD, "harness-src")
-        shutil.rmtree(alt, ignore_errors=True)
-        shutil.copytree(hdir, alt, ignore=shutil.ignore_patterns("target", "Cargo.lock"))
-        with open(os.path.join(alt, "Cargo.toml")) as f:
-            t = f.read()
-        with open(os.path.join(alt, "Cargo.toml"), "w") as f:
-            f.write(t.replace('"/repo/', '"%s/' % REPO.rstrip("/")))
-        hdir = alt
-    shutil.copyfile(os.path.join(REPO, "Cargo.lock"), os.path.join(hdir, "Cargo.lock"))
+    os.makedirs(BUILD, exist_ok=True)
+    lock = open(os.path.join(BUILD, ".lock-harness-src"), "w")
+    fcntl.flock(lock, fcntl.LOCK_EX)     # several worker processes may ask at the same time
+    try:
+        if REPO != "/repo":
+            alt = os.path.join(BUILD, "harness-src")
+            newest = max(os.path.getmtime(os.path.join(dp, f)) for dp, _, fs in os.walk(hdir) if "target" not in dp for f in fs if f != "Cargo.lock")
+            stamp = os.path.join(alt, ".stamp")
+            if not (os.path.exists(stamp) and os.path.getmtime(stamp) >= newest):
+                shutil.rmtree(alt, ignore_errors=True)
+                shutil.copytree(hdir, alt, ignore=shutil.ignore_patterns("target", "Cargo.lock"))
+                with open(os.path.join(alt, "Cargo.toml")) as f:
+                    t = f.read()
+                with open(os.path.join(alt, "Cargo.toml"), "w") as f:
+                    f.write(t.replace('"/repo/', '"%s/' % REPO.rstrip("/")))
+                open(stamp, "w").close()
+            hdir = alt
+        shutil.copyfile(os.path.join(REPO, "Cargo.lock"), os.path.join(hdir, "Cargo.lock"))
+    finally:
+        fcntl.flock(lock, fcntl.LOCK_UN)
+        lock.close()
     _done["hdir"] = hdir
     return hdir
 
